@@ -44,8 +44,21 @@ def make_case(rng, cid, LA, LB, lmax, deriv, a_on, b_on, tight_engine=True):
     for l in range(lmax + 1):
         for _ in range(rng.choice([1, 2])):
             prims.append([rng.choice([0, 1, 2]), l, 10 ** rng.uniform(-1.3, 3.3), rng.choice([-1, 1]) * 10 ** rng.uniform(-2, 1.5)])
+    A_, B_ = shell(LA, a_on), shell(LB, b_on)
+    if not a_on and not b_on and rng.random() < 0.12:
+        # mirror images about the ECP with a common exponent: the Gaussian product centre of that primitive pair is EXACTLY the ECP
+        # centre although neither shell is on it (X-M-X molecules); anything that divides by |P| must guard it per primitive pair
+        # (dyadic coordinates, so that A - C = -(B - C) holds bit for bit)
+        for i in range(3):
+            C[i] = round(C[i] * 8) / 8
+        d = [round((A_["c"][i] - C[i]) * 1024) / 1024 for i in range(3)]
+        if not any(d):
+            d[2] = 0.5
+        A_["c"] = [C[i] + d[i] for i in range(3)]
+        B_["c"] = [C[i] - d[i] for i in range(3)]
+        B_["prims"][0][0] = A_["prims"][0][0]
     mb = max(LA, LB) if tight_engine else 5
-    return dict(id=cid, maxLB=mb, maxLU=lmax if tight_engine else 5, deriv=deriv, ecp={"c": C, "prims": prims}, A=shell(LA, a_on), B=shell(LB, b_on),
+    return dict(id=cid, maxLB=mb, maxLU=lmax if tight_engine else 5, deriv=deriv, ecp={"c": C, "prims": prims}, A=A_, B=B_,
                 combo=[LA, LB, lmax, deriv, int(a_on), int(b_on)])
 
 
